@@ -1,6 +1,8 @@
 package main
 
 import (
+	"go/token"
+	"go/constant"
 	"fmt"
 	"go/types"
 	"sort"
@@ -42,6 +44,8 @@ func checkC01(c *Ctx) {
 	ruleR14analog(c, dv, "R1.4")
 	ruleR15(c, dv, "R1.5")
 	ruleR16(c, dv, modes, "R1.6")
+	ruleDispatch(c, dv, "R1.8", true, true)
+	ruleCounterInit(c, dv, "R1.7") // one zeroed holder count per (channel, note): a shared table makes the last-holder test wrong and the Note Off is withheld
 	c.MinCount("R1.1", 8)
 	c.MinCount("R1.2", 8)
 	c.MinCount("R1.3", 8)
@@ -342,9 +346,17 @@ func ruleR13(c *Ctx, dv *dev, rule string) {
 		seen := map[string]bool{}
 		for _, s := range sites {
 			top := topFunc(s.Fn)
-			name := top.Name()
+			if o := dv.ownerOf(s.Fn); o != top { // a newly extracted helper writes on behalf of its only caller
+				top = o
+			} else if s.Fn != top {
+				top = nil // closures of the owners are not owners
+			}
+			name := ""
+			if top != nil {
+				name = top.Name()
+			}
 			key := fmt.Sprintf("write(Device.%s)@%s", fname, shortFn(s.Fn))
-			if reason, ok := trackerWriters[fname][name]; ok && top.Pkg != nil && top.Pkg.Pkg.Path() == pkgDevice && s.Fn == top {
+			if reason, ok := trackerWriters[fname][name]; ok && top != nil && top.Pkg != nil && top.Pkg.Pkg.Path() == pkgDevice {
 				if !seen[key] {
 					seen[key] = true
 					c.OK(rule, key, c.P.Pos(s.Instr.Pos()), "allowed writer: "+reason)
@@ -416,7 +428,7 @@ func keyHandlerPaths(c *Ctx, dv *dev) ([]*Path, error) {
 			only[dv.fn[n]] = true
 		}
 	}
-	paths, err := Enumerate(fn, SymConfig{Prog: c.P, MaxDepth: 2, Collapse: true, OnlyInline: only})
+	paths, err := Enumerate(fn, SymConfig{Prog: c.P, MaxDepth: 3, Collapse: true, OnlyInline: dv.withHelpers(only)})
 	c.Paths += len(paths)
 	return paths, err
 }
@@ -510,10 +522,8 @@ func absPaths(c *Ctx, dv *dev) ([]*Path, error) {
 	for f := range dv.ctors {
 		only[f] = true
 	}
-	for f := range pureHelpers(c.P) { // value-only helpers (e.g. an extracted scaling function) are seen through
-		only[f] = true
-	}
-	paths, err := Enumerate(fn, SymConfig{Prog: c.P, MaxDepth: 2, Collapse: true, CollapsePure: true, OnlyInline: only})
+	dv.withHelpers(only) // value-only helpers (e.g. an extracted scaling function) and newly extracted helpers are seen through
+	paths, err := Enumerate(fn, SymConfig{Prog: c.P, MaxDepth: 3, Collapse: true, CollapsePure: true, OnlyInline: only})
 	c.Paths += len(paths)
 	return paths, err
 }
@@ -719,7 +729,7 @@ func isFieldNamed(v ssa.Value, name string) bool {
 func ruleR15(c *Ctx, dv *dev, rule string) {
 	fn := dv.fn["ProcessEvents"]
 	c.Fn(shortFn(fn))
-	paths, err := Enumerate(fn, SymConfig{Prog: c.P, MaxDepth: 1, Collapse: true, OnlyInline: map[*ssa.Function]bool{}})
+	paths, err := Enumerate(fn, SymConfig{Prog: c.P, MaxDepth: 3, Collapse: true, OnlyInline: dv.withHelpers(map[*ssa.Function]bool{})})
 	if !c.Require(err == nil, rule, "device.ProcessEvents", fmt.Sprint(err)) {
 		return
 	}
@@ -827,10 +837,18 @@ func ruleR15(c *Ctx, dv *dev, rule string) {
 	// structural twin (independent of unrolling): the range loops exist and are not nested in a branch that can skip them
 	for _, spec := range []string{"noteTracker", "analogNoteTracker"} {
 		found := false
-		for _, b := range fn.Blocks {
-			for _, in := range b.Instrs {
-				if r, ok := in.(*ssa.Range); ok && derivesFromField(r.X, dv.fields[spec], map[ssa.Value]bool{}) {
-					found = true
+		hosts := []*ssa.Function{fn}
+		for h := range dv.newHelpers() { // a clean-up extracted into a helper that only ProcessEvents calls
+			if dv.ownerOf(h) == fn {
+				hosts = append(hosts, h)
+			}
+		}
+		for _, host := range hosts {
+			for _, b := range host.Blocks {
+				for _, in := range b.Instrs {
+					if r, ok := in.(*ssa.Range); ok && derivesFromField(r.X, dv.fields[spec], map[ssa.Value]bool{}) {
+						found = true
+					}
 				}
 			}
 		}
@@ -869,5 +887,185 @@ func ruleR16(c *Ctx, dv *dev, modes []string, rule string) {
 		c.Check(sameSet(got, modes), rule, "device."+fnName+"/mode-cases", c.P.Pos(m.fn.Pos()),
 			fmt.Sprintf("case constants %v = SupportedCollisionModes", got),
 			fmt.Sprintf("case constants %v differ from config.SupportedCollisionModes %v: a mode the parser accepts is not handled (or vice versa)", got, modes))
+	}
+}
+
+// ruleDispatch: every key press/release reaches handleKEYEvent and every axis report reaches handleABSEvent, whatever
+// the event's value: decided on the paths of processEvent under representative (type, value) assumptions (the
+// function only ever compares Type and Value with constants), plus: ProcessEvents hands every received event to it.
+func ruleDispatch(c *Ctx, dv *dev, rule string, wantKey, wantAbs bool) {
+	fn := dv.fn["processEvent"]
+	if !c.Require(fn != nil && dv.fn["handleKEYEvent"] != nil && dv.fn["handleABSEvent"] != nil, rule, "anchor:device.processEvent", "processEvent / handlers not found") {
+		return
+	}
+	c.Fn(shortFn(fn))
+	const evdevPkg = "github.com/holoplot/go-evdev"
+	get := func(name string) (int64, bool) {
+		v, ok := c.P.constValue(evdevPkg, name)
+		if !ok {
+			return 0, false
+		}
+		k, ok := constant.Int64Val(v)
+		return k, ok
+	}
+	evKey, ok1 := get("EV_KEY")
+	evAbs, ok2 := get("EV_ABS")
+	if !c.Require(ok1 && ok2, rule, "anchor:evdev.EV_KEY/EV_ABS", "evdev constants not resolved") {
+		return
+	}
+	paths, err := Enumerate(fn, SymConfig{Prog: c.P, MaxDepth: 3, Collapse: true, OnlyInline: dv.withHelpers(map[*ssa.Function]bool{})})
+	if !c.Require(err == nil, rule, "device.processEvent/paths", fmt.Sprint(err)) {
+		return
+	}
+	c.Paths += len(paths)
+	pos := c.P.Pos(fn.Pos())
+	isField := func(t *Term, name string) bool {
+		t = t.StripConv()
+		return (t.Op == "load" || t.Op == "field") && strings.HasSuffix(t.String(), ".Event."+name)
+	}
+	cmp := func(v int64, op string, k int64) bool {
+		switch op {
+		case "==":
+			return v == k
+		case "!=":
+			return v != k
+		case "<":
+			return v < k
+		case "<=":
+			return v <= k
+		case ">":
+			return v > k
+		case ">=":
+			return v >= k
+		}
+		return true
+	}
+	consistent := func(p *Path, typ, val int64) bool {
+		for _, a := range p.Atoms {
+			op, l, r, ok := normAtom(a)
+			if !ok {
+				continue
+			}
+			if _, isC := l.IsConst(); isC {
+				l, r, op = r, l, flipOp(op)
+			}
+			k, isK := r.IsIntConst()
+			if !isK {
+				continue
+			}
+			if isField(l, "Type") && !cmp(typ, op, k) || isField(l, "Value") && !cmp(val, op, k) {
+				return false
+			}
+		}
+		return true
+	}
+	type tc struct {
+		key, what string
+		typ       int64
+		vals      []int64
+		want      *ssa.Function
+		on        bool
+	}
+	cases := []tc{
+		{"device.processEvent/axis-report->handleABSEvent", "an axis report (any position, including 0, 1, 2, -1)", evAbs, []int64{0, 1, 2, 3, -1, -2, 127, 255, -32768, 32767}, dv.fn["handleABSEvent"], wantAbs},
+		{"device.processEvent/key-press-release->handleKEYEvent", "a key press or release", evKey, []int64{0, 1}, dv.fn["handleKEYEvent"], wantKey},
+	}
+	// representatives of Value: every constant it is compared with anywhere, and its neighbours (the function touches
+	// Value only through comparisons with constants, so these cover every ordering)
+	reps := map[int64]bool{}
+	for _, p := range paths {
+		for _, a := range p.Atoms {
+			if _, l, r, ok := normAtom(a); ok {
+				if _, isC := l.IsConst(); isC {
+					l, r = r, l
+				}
+				if k, isK := r.IsIntConst(); isK && isField(l, "Value") {
+					reps[k-1], reps[k], reps[k+1] = true, true, true
+				}
+			}
+		}
+	}
+	for _, cs := range cases {
+		if !cs.on {
+			continue
+		}
+		n, bad := 0, ""
+		vals := cs.vals
+		if cs.typ == evAbs {
+			for k := range reps {
+				vals = append(vals, k)
+			}
+			sort.Slice(vals, func(i, j int) bool { return vals[i] < vals[j] })
+		}
+		for _, v := range vals {
+			for _, p := range paths {
+				if p.End == "cut" || !consistent(p, cs.typ, v) {
+					continue
+				}
+				n++
+				calls, locked := 0, true
+				for _, e := range p.Effects {
+					if e.Kind == "call" && e.Callee == cs.want {
+						calls++
+						if len(e.Args) < 2 || e.Args[1].Op != "param" {
+							bad = "the handler is not given the event that was received"
+						}
+						if !heldAt(e.Instr, dv.fields["eventProcessMutex"]) {
+							locked = false
+						}
+					}
+				}
+				if calls != 1 {
+					bad = fmt.Sprintf("%s with value %d reaches %s %d time(s): the event is dropped before the handler (a release / threshold crossing is lost and a note keeps sounding)", cs.what, v, cs.want.Name(), calls)
+				} else if !locked {
+					bad = "the handler runs without the event mutex"
+				}
+			}
+		}
+		if n == 0 {
+			c.Undec(rule, cs.key, pos, "no path consistent with "+cs.what)
+			continue
+		}
+		c.Check(bad == "", rule, cs.key, pos, fmt.Sprintf("%d consistent path evaluation(s), each calls %s(event) once under the event mutex", n, cs.want.Name()), bad)
+	}
+	// ProcessEvents: every received event is handed to processEvent
+	pe := dv.fn["ProcessEvents"]
+	if pe != nil {
+		okCall := false
+		for _, b := range pe.Blocks {
+			for _, in := range b.Instrs {
+				call, ok := in.(*ssa.Call)
+				if !ok || call.Call.StaticCallee() != fn || len(call.Call.Args) < 2 {
+					continue
+				}
+				// argument: the value received from the input channel in this iteration; the call dominates the latch
+				arg := call.Call.Args[1]
+				fromRecv := false
+				switch x := arg.(type) {
+				case *ssa.Extract:
+					if nx, isNext := x.Tuple.(*ssa.Next); isNext {
+						_ = nx
+						fromRecv = true
+					}
+					if u, isU := x.Tuple.(*ssa.UnOp); isU && u.Op == token.ARROW {
+						fromRecv = true
+					}
+				case *ssa.UnOp:
+					fromRecv = x.Op == token.ARROW
+				}
+				dominatesLatch := false
+				for _, h := range pe.Blocks {
+					for _, p := range h.Preds {
+						if h.Dominates(p) && h.Dominates(b) && blockDominatesOrSame(b, p) {
+							dominatesLatch = true
+						}
+					}
+				}
+				if fromRecv && dominatesLatch {
+					okCall = true
+				}
+			}
+		}
+		c.Check(okCall, rule, "device.ProcessEvents/every-event->processEvent", c.P.Pos(pe.Pos()), "each iteration of the input loop calls processEvent with the received event", "the input loop does not hand every received event to processEvent")
 	}
 }
